@@ -357,7 +357,7 @@ def parser_judge(op, line):
     """C17's oracle for the two parsers: the call returned (no watchdog timeout, no sanitizer abort —
     a missing line is reported by vlib as a crash) with a result or an error"""
     w = op.split(None, 1)[0]
-    if w not in ("ini", "inif", "inifp", "ac", "acp", "acpipe", "fread"):
+    if w not in ("ini", "inif", "inifp", "ac", "acp", "acpipe", "acre", "fread"):
         return None
     if line.startswith("timeout"):
         return "parser did not return within the watchdog time"
@@ -371,7 +371,7 @@ def parser_judge(op, line):
         if line != want:
             return "qfile_read returned %s, the stream holds %s" % (line[:60], want[:60])
         return None
-    if w in ("acp", "acpipe"):
+    if w in ("acp", "acpipe", "acre"):
         w = "ac"
     if w == "inifp":
         w = "inif"
@@ -392,7 +392,7 @@ def parser_classify(op, detail):
             # a document without any `${` cannot hang in the expansion
             return "qconfig._parsestr:self-referential-table-value" if "247b" in w[2] else "qconfig:timeout"
         return "qconfig:" + ("crash" if "died" in detail else "result")
-    if w and w[0] in ("ac", "acp", "acpipe"):
+    if w and w[0] in ("ac", "acp", "acpipe", "acre"):
         return "qaconf:" + ("timeout" if "watchdog" in detail or "imeout" in detail.lower() else "crash" if "died" in detail else "result")
     if w and w[0] == "fread":
         return "qfile_read:" + ("crash" if "died" in detail else "result")
